@@ -23,8 +23,6 @@ import (
 	"github.com/attestantio/go-eth2-client/spec/bellatrix"
 	"github.com/attestantio/go-eth2-client/spec/capella"
 	"github.com/attestantio/go-eth2-client/spec/phase0"
-	"github.com/holiman/uint256"
-	"github.com/prysmaticlabs/go-bitfield"
 	nullmetrics "github.com/attestantio/vouch/services/metrics/null"
 	aggbest "github.com/attestantio/vouch/strategies/aggregateattestation/best"
 	aggfirst "github.com/attestantio/vouch/strategies/aggregateattestation/first"
@@ -40,6 +38,8 @@ import (
 	sbbfirst "github.com/attestantio/vouch/strategies/signedbeaconblock/first"
 	scbest "github.com/attestantio/vouch/strategies/synccommitteecontribution/best"
 	scfirst "github.com/attestantio/vouch/strategies/synccommitteecontribution/first"
+	"github.com/holiman/uint256"
+	"github.com/prysmaticlabs/go-bitfield"
 	"github.com/rs/zerolog"
 	"verif/harness"
 )
@@ -55,7 +55,7 @@ const (
 
 // behaviour of one node in one case.
 type nb struct {
-	Kind string `json:"kind"` // valid | invalid | error | silent | hang
+	Kind string `json:"kind"`    // valid | invalid | error | silent | hang
 	Lat  string `json:"latency"` // fast | mid | late
 	Rank int    `json:"rank"`    // score rank (best/latest) or head slot (majority tie-break)
 	Val  int    `json:"value"`   // which value the node reports (majority)
@@ -255,12 +255,12 @@ func (c slotCache) BlockRootToSlot(_ context.Context, root phase0.Root) (phase0.
 }
 
 type strategy struct {
-	Name      string
-	Class     string // best | majority | first
-	Invalid   bool   // has validity rules, i.e. "invalid" node behaviour applies
-	Threshold bool
+	Name        string
+	Class       string // best | majority | first
+	Invalid     bool   // has validity rules, i.e. "invalid" node behaviour applies
+	Threshold   bool
 	SoftDecides bool // decides at the soft timeout when it has replies
-	build     func(nodes []*fnode, threshold int) (func(ctx context.Context) (string, error), error)
+	build       func(nodes []*fnode, threshold int) (func(ctx context.Context) (string, error), error)
 }
 
 var _ = uint256.NewInt
@@ -839,14 +839,14 @@ func run(c *harness.Ctx) {
 
 func main() {
 	harness.Main(&harness.Spec{
-		Property: "C07",
-		Level:    "exploration",
-		Rule:     "for each of the 17 strategy services: 1-6 scripted nodes, each {valid with a score rank / reported value, invalid per the strategy's validity rules with a tempting score, error, silent until cancelled, hanging beyond the timeout} x latency {fast 5-65 ms, mid 600 ms (between soft 400 and hard 800), late 1080 ms}; majority threshold 1..n; oracle on measured reply instants with a 130 ms ambiguity margin around each deadline. distinct = (strategy, multiset of node (kind, latency) classes, outcome); non-trivial = >=2 nodes",
-		Batches:  func(string) int { return 2 },
-		Parallel: 2,
-		Run:      run,
-		MinDistinct: 150,
+		Property:     "C07",
+		Level:        "exploration",
+		Rule:         "for each of the 17 strategy services: 1-6 scripted nodes, each {valid with a score rank / reported value, invalid per the strategy's validity rules with a tempting score, error, silent until cancelled, hanging beyond the timeout} x latency {fast 5-65 ms, mid 600 ms (between soft 400 and hard 800), late 1080 ms}; majority threshold 1..n; oracle on measured reply instants with a 130 ms ambiguity margin around each deadline. distinct = (strategy, multiset of node (kind, latency) classes, outcome); non-trivial = >=2 nodes",
+		Batches:      func(string) int { return 2 },
+		Parallel:     2,
+		Run:          run,
+		MinDistinct:  150,
 		ChildTimeout: func(string) time.Duration { return 40 * time.Minute },
-		Assumptions: []string{"timeout 0.8 s; scripted latencies are >= 150 ms away from the soft and hard deadlines; replies measured inside +-130 ms of a deadline make the case ambiguous and both outcomes are accepted", "score order is checked only between replies whose intended order is unambiguous (distinct ranks: source epoch / set bits / block value / head slot)", "the 'first' strategies have no validity rules of their own"},
+		Assumptions:  []string{"timeout 0.8 s; scripted latencies are >= 150 ms away from the soft and hard deadlines; replies measured inside +-130 ms of a deadline make the case ambiguous and both outcomes are accepted", "score order is checked only between replies whose intended order is unambiguous (distinct ranks: source epoch / set bits / block value / head slot)", "the 'first' strategies have no validity rules of their own"},
 	})
 }
